@@ -511,6 +511,12 @@ def rule_rowindex(ctx):
                 res.violate("%s : index-after-%s" % (key, bad[0]), "the index handed to weight_for counts positions of a sequence that was already shortened or reordered by `%s`: it is not the sample's row index, so the sample gets the weight of another row" % bad[0], fn_loc(fn, call["ln"]))
             else:
                 res.ok()
+    for fn in fns:
+        for node, adaptor, cont in rowindex.zip_after_filter(fn):
+            n += 1
+            key = fn_key(fn)
+            res.instance("%s : zip of a filtered sample sequence with self.%s" % (key, cont))
+            res.violate("%s : zip-after-%s:%s" % (key, adaptor, cont), "a sample sequence shortened by `%s` is zipped with `self.%s` walked from its start: the k-th remaining sample is paired with the %s of row k, not with its own" % (adaptor, cont, cont.rstrip("s")), fn_loc(fn, node["ln"]))
     if n == 0:
         res.missing_anchor("weight_for call sites in the dataset helpers / linfa-trees")
     return res.finish(2)
@@ -635,5 +641,85 @@ def rule_impurity(ctx):
     return res.finish(2)
 
 
+def rule_majority(ctx):
+    """'a leaf predicts a weighted most frequent label': the arg-max over the class weights compares the weights
+    themselves.  A key that passes them through a rounding or a float-to-integer conversion makes different weights
+    compare as equal, and the tie-break then picks a label that is not a heaviest one."""
+    res = RuleResult("R-C14-majority", "find_modal_class compares the class weights exactly: no rounding / integer conversion / tolerance between the weight and the comparison")
+    F = ctx.facts()
+    fns = [f for f in F.all_fns() if f["d"]["krate"] == "linfa_trees" and f["d"]["name"] == "find_modal_class"]
+    if not fns:
+        res.missing_anchor("find_modal_class")
+    for fn in fns:
+        c = fn["crate"]
+        key = fn_key(fn)
+        picks = [n for n in walk(fn["body"]) if n.get("k") == "MethodCall" and n["name"] in ("max_by", "max_by_key", "min_by", "min_by_key", "fold", "reduce") and n["args"]]
+        res.instance("%s : %d arg-max constructs" % (key, len(picks)))
+        if not picks:
+            res.undecided("%s : argmax-not-found" % key, "no arg-max over the class weights found", fn_loc(fn))
+            continue
+        bad = None
+        for p_ in picks:
+            for y in walk(p_["args"][-1]):
+                if y.get("k") == "MethodCall" and y["name"] in ("round", "floor", "ceil", "trunc", "to_i32", "to_i64", "to_u32", "to_u64", "to_usize", "signum"):
+                    bad = (y, "`.%s()`" % y["name"])
+                if y.get("k") == "Cast":
+                    tt = (c.ty(y.get("t")) or "").strip()
+                    st = (c.ty(strip(y["e"]).get("t")) or "").strip().lstrip("&")
+                    if tt in ("u8", "u16", "u32", "u64", "usize", "i8", "i16", "i32", "i64", "isize") and st in ("f32", "f64"):
+                        bad = (y, "`as %s`" % tt)
+                if y.get("k") == "Binary" and y["op"] in ("<=", "<", ">", ">=") and any(z.get("k") == "MethodCall" and z["name"] == "abs" for z in walk(y)) and any(z.get("k") == "Binary" and z["op"] == "-" for z in walk(y)):
+                    bad = (y, "a tolerance test `|a - b| <= ..`")
+            # a tolerance test hidden in a local closure that the comparator calls
+            for y in walk(p_["args"][-1]):
+                if y.get("k") == "Call" and strip(y["f"]).get("k") == "Path" and "local" in strip(y["f"]):
+                    for z in walk(fn["body"]):
+                        if z.get("k") == "LetStmt" and z["pat"].get("k") == "Bind" and z["pat"]["local"] == strip(y["f"])["local"] and z.get("init") is not None:
+                            if any(w.get("k") == "MethodCall" and w["name"] == "abs" for w in walk(z["init"])) and any(w.get("k") == "Binary" and w["op"] in ("<=", "<") for w in walk(z["init"])):
+                                bad = (y, "a tolerance test in `%s`" % strip(y["f"]).get("name"))
+        if bad:
+            res.violate("%s : approximate-weight-comparison" % key, "the arg-max over the class weights compares them through %s: weights that differ compare as equal, and the tie-break then returns a label that is not a heaviest one (and, being non-transitive, makes the result depend on the iteration order)" % bad[1], fn_loc(fn, bad[0].get("ln")))
+        else:
+            res.ok()
+    return res.finish(1)
+
+
+def rule_setter(ctx):
+    """the limits the tree is grown under are the ones the caller set: DecisionTreeParams' builder methods store their
+    arguments unchanged (see R-C04-setter)"""
+    from . import c04
+    res = RuleResult("R-C14-setter", "DecisionTreeParams' builder methods store max_depth / min_weight_split / min_weight_leaf / min_impurity_decrease exactly as given")
+    F = ctx.facts()
+    impls = c04.guard_impls(F)
+    n = 0
+    for adt, fn in c04.builder_methods(F, impls):
+        if adt != "DecisionTreeParams":
+            continue
+        c = fn["crate"]
+        params = set(b["local"] for p_ in fn["params"][1:] for b in pat_bindings(p_))
+        for fld, val, node in c04._assigned_fields(fn):
+            n += 1
+            key = "%s : %s" % (fn_key(fn), fld)
+            res.instance(key)
+            bad = None
+            for y in walk(val):
+                if y.get("k") == "MethodCall" and y["name"] in c04.VALUE_CHANGING and any(z.get("k") == "Path" and z.get("local") in params for z in walk(y["recv"])):
+                    bad = "`.%s(..)`" % y["name"]
+                    break
+                if y.get("k") == "Binary" and y["op"] in ("+", "-", "*", "/", "%") and any(z.get("k") == "Path" and z.get("local") in params for z in walk(y)):
+                    bad = "arithmetic `%s`" % y["op"]
+                    break
+                if y.get("k") in ("If", "Match") and y.get("src", "Normal") == "Normal" and any(z.get("k") == "Path" and z.get("local") in params for z in walk(y.get("c") or y.get("scrut"))):
+                    bad = "a branch on the argument"
+                    break
+            if bad:
+                res.violate("%s : setter-changes-value" % key, "the builder method `%s` passes its argument through %s before storing it in `%s`: the tree is grown under a limit the caller did not set" % (fn["d"]["name"], bad, fld), fn_loc(fn, node["ln"]))
+            else:
+                res.ok()
+    if n < 5:
+        res.missing_anchor("DecisionTreeParams setters (found %d)" % n)
+    return res.finish(5)
+
+
 def rules(tier):
-    return [rule_route, rule_limits, rule_weights, rule_layout, rule_importance, rule_rowindex, rule_impurity]
+    return [rule_route, rule_limits, rule_weights, rule_layout, rule_importance, rule_rowindex, rule_impurity, rule_setter, rule_majority]
